@@ -116,7 +116,19 @@ def has_scalar(f):
 
 # -- op generators: (rng, f) -> (desc, thunk, extra_inputs, in_domain, meta)
 def op_copy(rng, f):
-    return 'copy()', (lambda: f.copy()), [], True, {}
+    r = rng.random()
+    if r < 0.6:
+        return 'copy()', (lambda: f.copy()), [], True, {}
+    if r < 0.8 or is_ioapi(f):
+        # (partial skeleton copies of IOAPI files are building blocks, not
+        # files: only full and data-less copies are driven there)
+        return ('copy(data=False)', (lambda: f.copy(data=False)), [], True,
+                {})
+    if r < 0.9:
+        return ('copy(variables=False)', (lambda: f.copy(variables=False)),
+                [], True, {})
+    return ('copy(props=False)', (lambda: f.copy(props=False)), [],
+            not is_ioapi(f), {})
 
 
 def op_slice(rng, f, ioapi_window=False):
@@ -136,8 +148,8 @@ def op_slice(rng, f, ioapi_window=False):
             # IOAPI: keep the result a regular grid: ints and unit slices,
             # plus index lists (one at most)
             s = refsel.gen_selector(rng, ln, kinds=kinds)
-            if 's' in s and s['s'][2] not in (None, 1):
-                s['s'][2] = None
+            if 's' in s and name == 'TSTEP' and s['s'][2] not in (None, 1):
+                s['s'][2] = None     # time windows: forward, unit stride
             if 's' in s and refsel.sel_len(s, ln) == 0:
                 s = {'s': [None, None, None]}
         else:
@@ -299,6 +311,19 @@ def op_mask(rng, f):
         o = str(o)
         kw[o] = True if o == 'invalid' else float(rng.choice(
             [-3.0, 0.125, 2.0, 10.0, 100.0]))
+    wdesc = None
+    if rng.random() < 0.35:
+        # a boolean `where` array shaped like one of the variables
+        cands = [k for k in datavars(f) if f.variables[k].ndim > 0 and
+                 f.variables[k].size > 0]
+        if cands:
+            wk = str(rng.choice(cands))
+            wv = f.variables[wk]
+            w = rng.random(wv.shape) < 0.4
+            kw['mask' if rng.random() < 0.3 else 'where'] = w
+            if rng.random() < 0.5:
+                kw['dims'] = tuple(wv.dimensions)
+            wdesc = wk
     dom = True
     # the documented delegates (numpy.ma.masked_*) themselves raise on some
     # inputs (e.g. masked_invalid on a 0-d masked value): such calls are
@@ -307,11 +332,15 @@ def op_mask(rng, f):
     for k in f.variables.keys():
         try:
             a = f.variables[k][...]
-            refmask.ref_mask(np.ma.getdata(a), np.ma.getmaskarray(a), kw)
+            refmask.ref_mask(np.ma.getdata(a), np.ma.getmaskarray(a),
+                             {k_: v_ for k_, v_ in kw.items()
+                              if k_ in refmask.ORDER[1:]})
         except Exception:
             dom = False
-    return ('mask(%s)' % kw, (lambda: f.mask(**kw)), [], dom,
-            {'mask': dict(kw), 'unsigned': has_unsigned(f)})
+    desc = {k_: (v_ if k_ not in ('where', 'mask') else 'like:%s' % wdesc)
+            for k_, v_ in kw.items()}
+    return ('mask(%s)' % desc, (lambda: f.mask(**kw)), [], dom,
+            {'mask': desc, 'unsigned': has_unsigned(f)})
 
 
 def op_eval(rng, f):
